@@ -1089,6 +1089,11 @@ func (a *Assembler) cleanSG(half *halfconnection, ac AssemblerContext) {
 	var saved *page
 	for _, r := range a.cacheSG.all[ndx:] {
 		first, last, nb := r.convertToPages(a.pc, skip, ac)
+		if _, live := r.(*livePacket); live {
+			// pages made for a packet that was never queued: they are released
+			// (and uncounted) like any other page later on
+			half.pages += nb
+		}
 
 		// skip is the offset into the first kept container only; a live packet
 		// does not shrink when converted, so it cannot be derived from lengths.
@@ -1146,7 +1151,7 @@ func (a *Assembler) addPending(half *halfconnection, firstSeq Sequence) int {
 		var next *page
 		for p := half.saved; p != nil; p = next {
 			next = p.next
-			p.release(a.pc)
+			half.pages -= p.release(a.pc)
 		}
 		half.saved = nil
 		ret = []byteContainer{}
@@ -1227,6 +1232,7 @@ func (a *Assembler) closeHalfConnection(conn *connection, half *halfconnection) 
 	for p := half.saved; p != nil; p = next {
 		next = p.next
 		a.pc.replace(p)
+		half.pages--
 	}
 	half.saved = nil
 
